@@ -23,7 +23,7 @@ RULE = ('one workbook per generated text with up to ~25 formulas over it; non-tr
         '(0, length, length +- 1), or the text is empty, or contains a wildcard / regex-special character, or differs in case '
         'from the needle; distinct = distinct (text, supply route, formula)')
 ASSUMPTIONS = ['SEARCH start positions are asserted for 1 <= s <= length only; empty needles are not generated',
-               'text form of numbers is asserted for ints and decimals with <= 3 fractional digits only',
+               'text forms: ints, decimals with <= 3 fractional digits, quotients a/b as 15 significant digits, booleans as TRUE / FALSE',
                'LEFT of a number, fractional counts, VALUE of dates/times/percent/thousands separators are not asserted']
 
 ALPHABET = ['a', 'b', 'B', 'c', ' ', '.', '?', '*', '~', '(', '[', '+', '\\', '^', '$', '|', 'é', 'A']
@@ -145,6 +145,14 @@ def build(spec):
                         break
                     texts.append(t)
                     forms.append(T)
+                elif isinstance(p, bool):
+                    # the text form of a boolean is TRUE / FALSE
+                    texts.append('TRUE' if p else 'FALSE')
+                    forms.append('TRUE' if p else 'FALSE')
+                elif isinstance(p, list):
+                    # a quotient a/b in brackets: its text form has 15 significant digits and no trailing ".0"
+                    texts.append('%.15g' % (p[0] / p[1]))
+                    forms.append(f'({p[0]}/{p[1]})')
                 elif isinstance(p, str):
                     texts.append(p)
                     forms.append(lit(p))
@@ -232,7 +240,8 @@ def strategy():
                 qs.append({'fn': fn, 'n': draw(st.integers(0, max(0, L - 1)))})
             elif fn in ('AMP', 'CONCATENATE'):
                 part = st.one_of(st.just('$T'), st.sampled_from(['x', 'Yz', ' ', 'é']), st.integers(-9, 120),
-                                 st.sampled_from([1.5, 0.25, 12.125, 3.7]))
+                                 st.sampled_from([1.5, 0.25, 12.125, 3.7]), st.booleans(), st.sampled_from([1, 0]),
+                                 st.sampled_from([[3, 3], [1, 2], [0, 5], [1, 3], [2, 3], [10, 4], [7, 7]]))
                 qs.append({'fn': fn, 'parts': draw(st.lists(part, min_size=1, max_size=4))})
             else:
                 # needles: substrings of t (possibly case-flipped / with wildcards put in), or fresh
